@@ -308,7 +308,10 @@ def runJudge (body : List String) : List String :=
         let want := specs.getD i ""
         if got == want then none
         else
-          let why := quirkList.filterMap (fun (name, q) => if modelRun q P i == want then some name else none)
+          -- an open finding explains the disagreement only if the model of the code that exists reproduces the
+          -- implementation's value AND repairing exactly that deviation gives the reference value
+          let why := if modelRun Quirks.real P i != got then []
+            else quirkList.filterMap (fun (name, q) => if modelRun q P i == want then some name else none)
           let w := match why with | [] => "unexplained" | n :: _ => n
           some s!"bad spec-mismatch why={w} fn=t{i} impl={clip got} spec={clip want}")
     let v3 := p.same.filterMap (fun grp =>
